@@ -52,8 +52,10 @@ def classify_report(frames):
         return KNOWN_REGISTRY                 # registration (getId) racing with a lookup / the growing info vector
     if re.search(r"ecs/temporal_storage", txt):
         return "buffers"
-    if "utils/dispatch" in txt:
-        return "dispatcher"
+    if frames and frames[0].startswith("utils/dispatch"):
+        return "dispatcher"                   # the racing access itself is in the dispatcher
+    if frames:
+        return "library:" + frames[0].split(":")[0]   # innermost library frame of the racing access
     return "other"
 
 
@@ -108,6 +110,9 @@ def run_parjob(exe, args):
             kv = c08.parse_kv(l)
             if kv["sum_ok"] != "1" or kv["visits"] != kv["alive"]:
                 bad.append("after run(): " + l)
+            if kv.get("ntj_ok", "1") != "1":
+                bad.append("run-time described job (NonTemplateJob): a requested component was not updated exactly once per entity, "
+                           "or a component the job did not request was modified: " + l)
     nrounds = sum(1 for l in out.splitlines() if l.startswith("round"))
     if rc in (0, 66) and nrounds != int(args[2]):
         bad.append("parallel-job harness printed %d of %d rounds (rc=%d): %s" % (nrounds, int(args[2]), rc, err.strip()[-200:]))
@@ -216,13 +221,21 @@ def run(ctx):
             if open_buffers and eff >= cores:
                 continue                                   # avoid predicate of the open finding
             mode = rng.choice([1, 1, 3, 3, 2]) if not open_registry else rng.choice([0, 1, 1])
-            jobs.append((w, rng.choice([300, 3000, 30000]), rng.choice([3, 6]), rng.randrange(1, 1 << 20), rng.choice([0, 100, 300]), mode))
+            cap = 0
+            ents = rng.choice([300, 3000, 30000])
+            if rng.random() < 0.5:
+                # also a NonTemplateJob in parallel mode over {Bystander, Payload} and {Payload} (requested component at
+                # different component indexes), small storage chunks so that every task walks several arrays
+                mode |= 4
+                cap = rng.choice([8, 64, 256])
+                ents = rng.choice([300, 2000, 6000])
+            jobs.append((w, ents, rng.choice([3, 6]), rng.randrange(1, 1 << 20), rng.choice([0, 100, 300]), mode, cap))
     # replays of the open findings (printed as KNOWN-FINDING while they still reproduce)
     known_jobs = []
     if open_registry:
-        known_jobs.append((KNOWN_REGISTRY, (1, 3000, 3, 1, 100, 3)))
+        known_jobs.append((KNOWN_REGISTRY, (1, 3000, 3, 1, 100, 3, 0)))
     if open_buffers:
-        known_jobs.append((KNOWN_BUFFERS, (cores + 8, 30000, 3, 1, 100, 1)))
+        known_jobs.append((KNOWN_BUFFERS, (cores + 8, 30000, 3, 1, 100, 1, 0)))
     with ThreadPoolExecutor(4) as ex:
         for args, (reps, bad, rc) in zip(jobs, ex.map(lambda a: run_parjob(exe_job, a), jobs)):
             tsan_runs += 1
@@ -238,15 +251,15 @@ def run(ctx):
             if rc not in (0, 66, -999) and not reps:
                 kinds.setdefault(KNOWN_BUFFERS if (args[0] or cores - 1) >= cores else "crash", []).append(("crash rc=%d" % rc, []))
             for c, items in kinds.items():
-                desc = "ThreadSanitizer / crash in a parallel job (workers=%s entities=%d rounds=%d seed=%d inject=%d mode=%d): %s" % (
+                desc = "ThreadSanitizer / crash in a parallel job (workers=%s entities=%d rounds=%d seed=%d inject=%d mode=%d chunk-capacity=%d): %s" % (
                     args + ("; ".join("%s at %s" % (k, "; ".join(f[:3])) for k, f in items[:2]),))
                 if c in (KNOWN_REGISTRY, KNOWN_BUFFERS) and ctx.known(c, desc[:300]):
                     continue
                 if stats["violations"] < 4:
-                    ctx.violation("parjob %d %d %d %d %d %d\n" % args, "[%s] %s" % (c, desc))
+                    ctx.violation("parjob %d %d %d %d %d %d %d\n" % args, "[%s] %s" % (c, desc))
                     stats["violations"] += 1
             if bad and stats["violations"] < 4:
-                ctx.violation("parjob %d %d %d %d %d %d\n" % args, "values written by the tasks are not all visible after run(): " + "; ".join(bad[:3]))
+                ctx.violation("parjob %d %d %d %d %d %d %d\n" % args, "values written by the tasks are not all visible after run() / wrong data handed to a task: " + "; ".join(bad[:3]))
                 stats["violations"] += 1
         for key, args in known_jobs:
             for attempt in range(8):
@@ -274,7 +287,7 @@ def run(ctx):
     ctx.cov(creation_storms=storm_runs)
     ctx.cov(evaluations=evaluations + tsan_runs + storm_runs, distinct_nontrivial=len(set(scripts)) + len(set(tscripts)) + len(set(jobs)),
             rule="distinct job-shaped scripts (>= 1 job of >= 1 task followed by the barrier) and distinct parallel-job configurations",
-            samples=samples + [{"kind": "tsan-job", "args(workers,entities,rounds,seed,inject,mode)": list(a)} for a in jobs[:3]],
+            samples=samples + [{"kind": "tsan-job", "args(workers,entities,rounds,seed,inject,mode,chunk_capacity)": list(a)} for a in jobs[:3]],
             trace_scripts=evaluations, trace_events_checked=total_events, tsan_runs=tsan_runs,
             tsan_reports=tsan_report_count, tsan_report_kinds=report_kinds, worker_counts_seen=sorted(workers_seen),
             avoided=[k for k, o in ((KNOWN_REGISTRY, open_registry), (KNOWN_BUFFERS, open_buffers)) if o],
